@@ -118,8 +118,9 @@ class Invalid(Exception):
     pass
 
 
-def resolve(block, cname, dim, hot, mats, _seen=()):
-    """Value of a dimension: numbers expand with their owner's material; links take the target's."""
+def resolve(block, cname, dim, hot, mats, _seen=(), spec=None):
+    """Value of a dimension: numbers expand with their owner's material; links take the target's;
+    a multiplicity left to the pin lattice is the number of lattice positions."""
     comps = {c["name"]: c for c in block["components"]}
     if (cname, dim) in _seen:
         raise Invalid("bad link: cycle through %s.%s" % (cname, dim))
@@ -131,11 +132,15 @@ def resolve(block, cname, dim, hot, mats, _seen=()):
     v = c["dims"].get(dim, DEFAULTS.get(dim))
     if v is None:
         raise Invalid("dimension %s.%s missing" % (cname, dim))
+    if dim == "mult" and spec is not None and not isinstance(v, str) and float(v) == 1.0:
+        cells = lattice_count(spec, block, c)
+        if cells:
+            return float(len(cells))
     if isinstance(v, str):
         m = LINK.match(v)
         if not m:
             raise Invalid("bad link: malformed %r" % v)
-        return resolve(block, m.group(1), m.group(2), hot, mats, _seen + ((cname, dim),))
+        return resolve(block, m.group(1), m.group(2), hot, mats, _seen + ((cname, dim),), spec)
     v = float(v)
     if hot and dim not in NOT_LENGTHS:
         v *= 1.0 + mats.dLL(c)
@@ -246,8 +251,8 @@ def block_areas(spec, b, mats):
                     continue
             if dn not in c["dims"] and dn not in DEFAULTS:
                 raise Invalid("dimension %s.%s missing" % (c["name"], dn))
-            cold[dn] = resolve(b, c["name"], dn, False, mats)
-            hot[dn] = resolve(b, c["name"], dn, True, mats)
+            cold[dn] = resolve(b, c["name"], dn, False, mats, spec=spec)
+            hot[dn] = resolve(b, c["name"], dn, True, mats, spec=spec)
         out[c["name"]] = {"cold": area(c["shape"], cold), "hot": area(c["shape"], hot), "dims": cold, "hotdims": hot}
     if derived is not None:
         outer = outermost(b, out)
@@ -383,7 +388,11 @@ def component_composition(spec, c, mods, mats):
         if iso is not None:
             return None
         w = dict(mat.massFrac)
-        rho = mat.density(Tc=c["Thot"])
+        if mats.is_fluid(name):
+            rho = mat.density(Tc=c["Thot"])
+        else:
+            # the documented component rule: 2-D expanded (pseudo) density, then the axial expansion
+            rho = mat.pseudoDensity(Tc=c["Thot"]) / (1.0 + mat.linearExpansionPercent(Tc=c["Thot"]) / 100.0)
     NA = units.AVOGADROS_NUMBER * 1e-24
     tab = expansion_table(spec)
     out = {}
